@@ -52,7 +52,7 @@ def check_ctor(ctx, F, R):
             tl_base = tl_base[1]
         okf = ok and tl_base == ("param", 1) and f.get(R["current_state"]) == ("param", 2) \
             and f.get(R["current_values"]) == ("param", 3) and is_none(f.get(R["pause"])) \
-            and pse.is_const(f.get(R["time"])) and "Duration::ZERO" in str(f[R["time"]][2])
+            and T.is_zero_time(f.get(R["time"]))
         ctx.ob("R4", "new/fields", okf,
                "constructor must store (timelines, initial_state, initial_values, None, ZERO); got %s" % show(r),
                new["span"], trace_of(p), what="ctor-fields-wrong")
